@@ -3,6 +3,7 @@ package c11
 
 import (
 	"fmt"
+	"net/http"
 	"strings"
 	"testing"
 	"time"
@@ -39,7 +40,12 @@ func genConn(t *rapid.T) ConnCase {
 		lim := int64(rapid.IntRange(0, 2600).Draw(t, "stallAt"))
 		return ConnCase{"stall", rig.ConnPlan{Kind: "serve", ALPN: alpn, NReq: rapid.IntRange(0, 2).Draw(t, "nreq"), Limit: lim, LimitMode: "stall"}}
 	case 4:
-		return ConnCase{"idle", rig.ConnPlan{Kind: "serve", ALPN: alpn, NReq: rapid.IntRange(1, 3).Draw(t, "nreq"), Limit: -1}}
+		pl := rig.ConnPlan{Kind: "serve", ALPN: alpn, NReq: rapid.IntRange(1, 3).Draw(t, "nreq"), Limit: -1}
+		if alpn == "h2" {
+			// the connection goes idle after its last stream ended normally or abnormally
+			pl.LastStream = rapid.SampledFrom([]string{"", "", "client-rst", "early-response", "malformed"}).Draw(t, "last")
+		}
+		return ConnCase{"idle", pl}
 	case 5:
 		k := rapid.SampledFrom([]string{"garbage", "plainhttp", "silent"}).Draw(t, "k")
 		pl := rig.ConnPlan{Kind: k, Limit: -1}
@@ -79,7 +85,15 @@ func exec(t *testing.T, s Script) *vstat.Violation {
 	hs := time.Duration(s.HSTimeoutMs) * time.Millisecond
 	idle := time.Duration(s.IdleMs) * time.Millisecond
 	msg := rig.Bubble(t, func() {
-		p := rig.StartProxy(rig.ProxyOpts{IdleTimeout: idle, TLSHandshakeTimeout: hs})
+		p := rig.StartProxy(rig.ProxyOpts{IdleTimeout: idle, TLSHandshakeTimeout: hs, WrapHandler: func(next http.Handler) http.Handler {
+			return http.HandlerFunc(func(w http.ResponseWriter, r *http.Request) {
+				if strings.HasPrefix(r.URL.Path, "/early/") {
+					w.WriteHeader(200) // answered before the request body has arrived
+					return
+				}
+				next.ServeHTTP(w, r)
+			})
+		}})
 		var obs []*connObs
 		start := func(c ConnCase, i int) *connObs {
 			r, err := rig.StartClient(p, c.Plan, nil, fmt.Sprintf("k%d", i))
@@ -162,6 +176,9 @@ func exec(t *testing.T, s Script) *vstat.Violation {
 					return true
 				}
 				o.classes = append(o.classes, "idle:"+protoName(proto))
+				if o.c.Plan.LastStream != "" && proto == "h2" {
+					o.classes = append(o.classes, "idle-after:"+o.c.Plan.LastStream)
+				}
 				from := time.Now()
 				// allow the HTTP/2 GOAWAY grace period (1 s) on top of the idle timeout
 				time.Sleep(idle + 1500*time.Millisecond)
@@ -265,7 +282,7 @@ func dedup(in []string) []string {
 func TestRelease(t *testing.T) {
 	rig.Certs()
 	col.Mandatory("abort:during-handshake", "abort:after-handshake:h2", "abort:after-handshake:http/1.1", "stall:before-handshake-complete", "handshake-timeout-enforced", "stall:after-handshake",
-		"idle:h2", "idle:http/1.1", "idle:no-alpn", "parallel:true", "hs-timeout:0ms")
+		"idle:h2", "idle:http/1.1", "idle:no-alpn", "parallel:true", "hs-timeout:0ms", "idle-after:client-rst", "idle-after:early-response", "idle-after:malformed")
 	vstat.Run(t, vstat.Spec[Script]{Col: col, Quick: 1200, Thorough: 40000, Gen: gen, Exec: func(s Script) *vstat.Violation { return exec(t, s) }})
 }
 
